@@ -42,11 +42,13 @@ func NewControlFile(path string, fp *os.File) *ControlFile {
 func (m *ControlFile) Close() error {
 	if m != nil {
 		if m.fp != nil {
+			verifPoint("cf.close_fd", m.path)
 			if err := file.Close(m.fp); err != nil {
 				return err
 			}
 		}
 
+		verifPoint("cf.remove", m.path)
 		if Exists(m.path) {
 			if err := os.Remove(m.path); err != nil {
 				return err
@@ -60,11 +62,13 @@ func (m *ControlFile) CloseWithErrors() []error {
 	var errs []error
 	if m != nil {
 		if m.fp != nil {
+			verifPoint("cf.close_fd", m.path)
 			if err := file.Close(m.fp); err != nil {
 				errs = append(errs, err)
 			}
 		}
 
+		verifPoint("cf.remove", m.path)
 		if Exists(m.path) {
 			if err := os.Remove(m.path); err != nil {
 				errs = append(errs, err)
@@ -91,6 +95,7 @@ func CreateControlFileContext(ctx context.Context, filePath string, fileType Con
 			return nil, err
 		}
 
+		verifPoint("wait.retry", filePath)
 		select {
 		case <-ctx.Done():
 			if ctx.Err() == context.Canceled {
@@ -119,11 +124,13 @@ func tryCreateControlFile(filePath string, fileType ControlFileType) (*ControlFi
 }
 
 func TryCreateRLockFile(filePath string) (controlFile *ControlFile, err error) {
+	verifPoint("rlock.stat_lock", filePath)
 	if LockExists(filePath) {
 		return nil, NewLockError(fmt.Sprintf("failed to create %s file for %q", RLock, filePath))
 	}
 
 	lockFilePath := LockFilePath(filePath)
+	verifPoint("rlock.create_lock", filePath)
 	lfp, err := file.Create(lockFilePath)
 	if err != nil {
 		return nil, NewLockError(fmt.Sprintf("failed to create %s file for %q", RLock, filePath))
@@ -134,6 +141,7 @@ func TryCreateRLockFile(filePath string) (controlFile *ControlFile, err error) {
 	}()
 
 	rlockFilePath := RLockFilePath(filePath)
+	verifPoint("rlock.create_rlock", filePath)
 	fp, e := file.Create(rlockFilePath)
 	if e != nil {
 		return nil, NewLockError(fmt.Sprintf("failed to create %s file for %q", RLock, filePath))
@@ -143,17 +151,20 @@ func TryCreateRLockFile(filePath string) (controlFile *ControlFile, err error) {
 }
 
 func TryCreateLockFile(filePath string) (*ControlFile, error) {
+	verifPoint("lock.check", filePath)
 	if LockExists(filePath) || RLockExists(filePath) {
 		return nil, NewLockError(fmt.Sprintf("failed to create %s file for %q", Lock, filePath))
 	}
 
 	lockFilePath := LockFilePath(filePath)
+	verifPoint("lock.create_lock", filePath)
 	fp, err := file.Create(lockFilePath)
 	if err != nil {
 		return nil, NewLockError(fmt.Sprintf("failed to create %s file for %q", Lock, filePath))
 	}
 	lockFile := NewControlFile(lockFilePath, fp)
 
+	verifPoint("lock.recheck_rlock", filePath)
 	if RLockExists(filePath) {
 		err := NewLockError(fmt.Sprintf("failed to create %s file for %q", Lock, filePath))
 		err = NewCompositeError(err, lockFile.Close())
@@ -165,6 +176,7 @@ func TryCreateLockFile(filePath string) (*ControlFile, error) {
 
 func TryCreateTempFile(filePath string) (*ControlFile, error) {
 	tempFilePath := TempFilePath(filePath)
+	verifPoint("temp.create", filePath)
 	fp, err := file.Create(tempFilePath)
 	if err != nil {
 		return nil, NewLockError(fmt.Sprintf("failed to create %s file for %q", Temporary, filePath))
